@@ -316,7 +316,7 @@ fn batch_case() -> impl Strategy<Value = BatchCase> {
 pub fn c25(ctx: &mut Ctx) {
     ctx.rule = "sequences of 4-10 batches (1-7 queries each, from the history grammar in QueryType form: reads, writes, queries failing at position k through missing ids / invalid references, result references ':n' pointing at earlier, later or out-of-range results, mutating queries sent to the read-only exec endpoint) submitted by the owner and by a write-role user to memory, mapped and file databases of a real server process. Oracle: the reference model is applied per batch; if any query of the batch is predicted to fail the response must be an error and the canonical dump read back through exec must equal the dump before (order-insensitive); otherwise every result must match and the dump must equal the model; after every batch the audit endpoint must list exactly the mutating queries (after result injection) of the applied batches, in order, with the submitting user. evaluations = batches. Non-trivial: a failing batch whose failure comes after >=1 successful mutating query. Distinct = hash of the case.".into();
     ctx.assumptions.push("values are restricted to those that survive JSON (no NaN / infinity)".into());
-    let cases = ctx.tier.pick(120, 2500);
+    let cases = ctx.tier.pick(90, 2500);
     replay_saved::<BatchCase, _>(ctx, "c25-batches", c25_case);
     run_campaign(ctx, CampaignCfg { name: "c25-batches", cases, max_shrink_iters: 300, max_restarts: 2 }, batch_case, c25_case);
     stop_server();
@@ -453,6 +453,9 @@ fn c26_case(c: &NameCase) -> CaseResult {
     let mut orphan_checks = 0u64;
     // databases detached with `remove`: the endpoint is documented to keep their files
     let mut kept_files: BTreeSet<String> = BTreeSet::new();
+    let mut orphans: BTreeMap<String, String> = BTreeMap::new();
+    let mut types_before: BTreeMap<(String, String), String> = BTreeMap::new();
+    let mut leftovers = 0u64;
     let mut trace = vec![];
     let protected: Vec<String> = {
         // files of the plain databases that no other database may touch
@@ -518,45 +521,85 @@ fn c26_case(c: &NameCase) -> CaseResult {
                 ));
             }
         }
-        // state invariant (plain names only, where a file name identifies its database): every
-        // file under an owner's directory belongs to a database that owner currently has - a
-        // file left behind by a rename, transfer or delete would later be adopted by another
-        // database of the same name
+        // "No two databases share a file", over time (plain names only, where a file name
+        // identifies its database): a file that a rename, conversion, ownership transfer or
+        // deletion leaves behind under a user's directory belongs to no database any more; when a
+        // later request creates a database of that name, the new database adopts the leftover
+        // (backup, recovery log, audit log or data) of the old one. Leftovers alone are counted,
+        // the adoption is the violation. Databases detached with `remove` keep their files, as
+        // documented.
         if matches!(op, NameOp::Remove) && r.ok() {
             kept_files.insert(decoded.clone());
         }
         if name_class(&decoded) == "plain" && name_class(&odecoded) == "plain" && !decoded.contains('%') && !odecoded.contains('%') {
             orphan_checks += 1;
+            let mut now_orphan: BTreeSet<String> = BTreeSet::new();
+            let mut types_now: BTreeMap<(String, String), String> = BTreeMap::new();
+            let mut owned: BTreeSet<(String, String)> = BTreeSet::new();
             for (user, token) in [(&u1, &t1), (&u2, &t2)] {
                 let lr = s.call("GET", "/api/v1/db/list", Some(token), None);
                 if lr.status != 200 {
                     return Err(Fail::new("harness: db list failed", format!("{} {}", lr.status, lr.text())));
                 }
                 // databases this user owns (the list also holds databases shared with the user)
-                let dbs: BTreeSet<String> = lr.json().as_array().cloned().unwrap_or_default().iter().filter(|d| d["owner"].as_str() == Some(user.as_str())).filter_map(|d| d["db"].as_str().map(|x| x.to_string())).collect();
-                let prefix = format!("{data_rel}/{user}/");
-                for k in after.keys().filter(|k| k.starts_with(&prefix) && !k.ends_with('/')) {
-                    let rel = &k[prefix.len()..];
-                    let owner_db = if let Some(x) = rel.strip_prefix("backups/") {
-                        x.strip_suffix(".bak").or_else(|| x.strip_suffix(".log")).map(|x| x.to_string())
-                    } else if let Some(x) = rel.strip_prefix("audit/") {
-                        x.strip_suffix(".log").map(|x| x.to_string())
-                    } else if let Some(x) = rel.strip_prefix('.') {
-                        Some(x.to_string())
-                    } else {
-                        Some(rel.to_string())
-                    };
-                    match owner_db {
-                        Some(d) if dbs.contains(&d) || (user == &u1 && kept_files.contains(&d)) => {}
-                        _ => {
+                for d in lr.json().as_array().cloned().unwrap_or_default().iter().filter(|d| d["owner"].as_str() == Some(user.as_str())) {
+                    if let Some(name) = d["db"].as_str() {
+                        owned.insert((user.to_string(), name.to_string()));
+                        types_now.insert((user.to_string(), name.to_string()), d["db_type"].as_str().unwrap_or("?").to_string());
+                    }
+                }
+            }
+            let file_owner = |k: &str| -> Option<(String, String, &'static str)> {
+                for user in [&u1, &u2] {
+                    let prefix = format!("{data_rel}/{user}/");
+                    if let Some(rel) = k.strip_prefix(&prefix) {
+                        if rel.is_empty() || rel.ends_with('/') {
+                            return None;
+                        }
+                        let (d, class) = if let Some(x) = rel.strip_prefix("backups/") {
+                            (x.strip_suffix(".bak").or_else(|| x.strip_suffix(".log")).map(|x| x.to_string()), "backup")
+                        } else if let Some(x) = rel.strip_prefix("audit/") {
+                            (x.strip_suffix(".log").map(|x| x.to_string()), "audit log")
+                        } else if let Some(x) = rel.strip_prefix('.') {
+                            (Some(x.to_string()), "recovery log")
+                        } else {
+                            (Some(rel.to_string()), "data file")
+                        };
+                        return d.map(|d| (user.to_string(), d, class));
+                    }
+                }
+                None
+            };
+            for k in after.keys() {
+                if let Some((user, d, class)) = file_owner(k) {
+                    let has = owned.contains(&(user.clone(), d.clone())) || (user == u1 && kept_files.contains(&d));
+                    if !has {
+                        now_orphan.insert(k.clone());
+                        if !orphans.contains_key(k) {
+                            let kind = types_before.get(&(u1.clone(), decoded.clone())).cloned().unwrap_or_else(|| "?".into());
+                            orphans.insert(k.clone(), format!("{} of a {kind} database ({class})", op_name(op)));
+                            leftovers += 1;
+                        }
+                    } else if let Some(tag) = orphans.get(k) {
+                        // an orphan has an owner again: a database of that name was created
+                        if r.ok() {
+                            // one root cause for memory databases (listed finding): their files
+                            // are neither moved nor removed when the database is renamed or transferred
+                            let sig = if tag.contains(" of a memory database") && (tag.starts_with("rename") || tag.starts_with("ownership transfer")) {
+                                "a new database adopted a file left behind by a renamed or transferred memory database".to_string()
+                            } else {
+                                format!("a new database adopted a file left behind by {tag}")
+                            };
                             return Err(Fail::new(
-                                format!("file left behind that belongs to no database of its directory's owner ({})", if rel.starts_with("backups/") { "backup" } else if rel.starts_with("audit/") { "audit" } else if rel.starts_with('.') { "recovery log" } else { "data file" }),
-                                format!("{k} exists but user {user} has databases {dbs:?}\n{}\nname {decoded:?} other {odecoded:?}", trace.join("\n")),
+                                sig,
+                                format!("{k} was left without a database and now belongs to {user}/{d}\n{}\nname {decoded:?} other {odecoded:?}", trace.join("\n")),
                             ));
                         }
                     }
                 }
             }
+            orphans.retain(|k, _| now_orphan.contains(k));
+            types_before = types_now;
         }
         if !r.ok() && changed.iter().any(|k| !is_server_file(k, &data_rel) && *k != format!("{data_rel}/")) {
             let name_for_sig = if matches!(op, NameOp::Copy | NameOp::Rename) { &odecoded } else { &decoded };
@@ -568,6 +611,7 @@ fn c26_case(c: &NameCase) -> CaseResult {
     }
     ci.nontrivial = ((is_special(&decoded) || is_special(&odecoded)) && (any_2xx || any_fs_change)) || (orphan_checks > 0 && any_2xx);
     ci.count("orphan-file checks (plain names)", orphan_checks);
+    ci.count("files left behind without a database (not judged until adopted)", leftovers);
     ci.label(format!("name class {}", name_class(&decoded)));
     if any_2xx {
         ci.label("a request was accepted");
@@ -584,6 +628,22 @@ fn confinement_sig(class: &str, symptom: &str) -> String {
         symptom.to_string()
     } else {
         format!("unvalidated database name ({class}): files outside the owner's directory, shared between databases, or left behind by a rejected request")
+    }
+}
+
+fn op_name(op: &NameOp) -> &'static str {
+    match op {
+        NameOp::Add(_) => "add",
+        NameOp::Copy => "copy",
+        NameOp::Rename => "rename",
+        NameOp::Backup => "backup",
+        NameOp::Restore => "restore",
+        NameOp::Clear(_) => "clear",
+        NameOp::Convert(_) => "convert",
+        NameOp::ExecMut => "exec_mut",
+        NameOp::Delete => "delete",
+        NameOp::Remove => "remove",
+        NameOp::Transfer(_) => "ownership transfer",
     }
 }
 
@@ -629,6 +689,20 @@ fn name_case_with(plain_only: bool) -> impl Strategy<Value = NameCase> {
     ];
     (prop::collection::vec(piece(), 1..4), prop::collection::vec(piece(), 1..4), prop::collection::vec(op, 2..7)).prop_map(|(name, other, mut ops)| {
         ops.insert(0, NameOp::Add(1));
+        if ops.len() % 2 == 0 {
+            ops.insert(1, NameOp::Backup);
+        }
+        // a database created under the old name right after a rename, transfer, conversion or
+        // deletion is what would adopt files left behind
+        let mut with_followups = vec![];
+        for (i, op) in ops.into_iter().enumerate() {
+            let follow = matches!(op, NameOp::Rename | NameOp::Transfer(_) | NameOp::Delete | NameOp::Convert(_));
+            with_followups.push(op);
+            if follow {
+                with_followups.push(NameOp::Add((i % 3) as u8));
+            }
+        }
+        let ops = with_followups;
         NameCase { name, other, ops }
     })
 }
@@ -638,8 +712,8 @@ fn name_case() -> impl Strategy<Value = NameCase> {
 }
 
 pub fn c26(ctx: &mut Ctx) {
-    ctx.rule = "database names built from 1-3 pieces of a grammar of path-like and special strings (separators / and \\, their percent-encoded and double-encoded forms, '.' and '..' segments, leading dots incl. the recovery-log name '.x' of an existing database 'x', the reserved directory names audit and backups and paths inside them, .bak / .log suffixes, blanks, control and non-ASCII characters), each piece sent raw or percent-encoded, used with add, copy (as new_db), rename (as new_db), backup, restore, clear, convert, exec_mut, delete, remove and ownership transfer (admin rename to the other user) by one user while another user and the same user own a plain database 'x' with a backup. One fresh server per case, nested five levels below the scratch root. Oracle: a manifest (path, size, content hash) of the whole scratch root is taken before and after every request; every created, modified or deleted path (except the server's own bookkeeping files) must lie under data_dir/<owner>/; no file of database 'x' (main, recovery log, backup, audit) may be changed by a request on another name; a rejected request changes nothing; for plain names additionally, after every request every file under a user's directory belongs to a database that user currently has (nothing is left behind by rename, ownership transfer through the admin rename, or delete). evaluations = requests. Non-trivial: the name contains a separator, dot segment, leading dot, reserved name or suffix and the server answered 2xx or changed the file system. Pass B repeats the campaign with names restricted to plain pieces (no separator, dot, reserved name or suffix), where every failure is a violation. Distinct = hash of the case.".into();
-    let cases = ctx.tier.pick(120, 2500);
+    ctx.rule = "database names built from 1-3 pieces of a grammar of path-like and special strings (separators / and \\, their percent-encoded and double-encoded forms, '.' and '..' segments, leading dots incl. the recovery-log name '.x' of an existing database 'x', the reserved directory names audit and backups and paths inside them, .bak / .log suffixes, blanks, control and non-ASCII characters), each piece sent raw or percent-encoded, used with add, copy (as new_db), rename (as new_db), backup, restore, clear, convert, exec_mut, delete, remove and ownership transfer (admin rename to the other user) by one user while another user and the same user own a plain database 'x' with a backup. One fresh server per case, nested five levels below the scratch root. Oracle: a manifest (path, size, content hash) of the whole scratch root is taken before and after every request; every created, modified or deleted path (except the server's own bookkeeping files) must lie under data_dir/<owner>/; no file of database 'x' (main, recovery log, backup, audit) may be changed by a request on another name; a rejected request changes nothing; for plain names additionally, files that a request leaves behind under a user's directory without a database (after rename, conversion, ownership transfer through the admin rename, delete) are tracked, and a later request that creates a database of that name - which thereby adopts another database's backup, recovery log, audit log or data - is a violation ('no two databases share a file' over time); databases detached with remove keep their files, as documented. evaluations = requests. Non-trivial: the name contains a separator, dot segment, leading dot, reserved name or suffix and the server answered 2xx or changed the file system. Pass B repeats the campaign with names restricted to plain pieces (no separator, dot, reserved name or suffix), where every failure is a violation. Distinct = hash of the case.".into();
+    let cases = ctx.tier.pick(90, 2500);
     replay_saved::<NameCase, _>(ctx, "c26-names", c26_case);
     run_campaign(ctx, CampaignCfg { name: "c26-names", cases, max_shrink_iters: 40, max_restarts: 2 }, name_case, c26_case);
     // pass B: plain names only - whatever fails here has another cause than the listed findings
@@ -945,7 +1019,12 @@ fn c24_case(c: &PermCase) -> CaseResult {
             }
         } else {
             if !resp.ok() {
-                return Err(Fail::new(format!("permitted request rejected ({})", req_name(&st.req)), format!("{} {}\n{}", resp.status, truncate(&resp.text(), 200), trace.join("\n"))));
+                // The property is one-directional (an operation is performed ONLY for a permitted
+                // caller): a permitted request that fails - for a functional reason, or even
+                // with 401/403 - is not a violation of it. It is counted, and the sequence ends
+                // here because the server may have changed state half-way.
+                ci.count(format!("permitted request failed (not judged): {} -> {}", req_name(&st.req), resp.status), 1);
+                break;
             }
             if let Some(e) = effect {
                 e(&mut roles, &mut db, &mut db_exists);
@@ -1062,7 +1141,7 @@ fn perm_case() -> impl Strategy<Value = PermCase> {
 }
 
 pub fn c24(ctx: &mut Ctx) {
-    ctx.rule = "multi-user request sequences (5-40 requests) against a real server process: four users (owner + three others) on one database (memory / mapped / file); grants and removals of read/write/admin roles, exec and exec_mut with read-only and mutating batches, a mutating batch sent to exec, audit, backup, restore, clear, optimize, convert, copy, rename, delete, remove, user list, adding a database under another user's name, logout (current / all sessions), login, change password, and admin endpoints called with user tokens; each request is issued by a generated actor presenting a valid, logged-out, garbage, missing or quoted token (the server strips surrounding quotes on purpose, so a quoted valid token counts as valid). Oracle: a permission model written from the documented table predicts allowed / rejected; rejected => 4xx and the observable server state (users, databases, roles per database, node count and element ids per database, read through admin endpoints) is unchanged; allowed => 2xx and the roles reported by the server equal the model. A user removing their own role is not in the documented table and is not decided. evaluations = requests. Non-trivial: >=1 rejected request by an authenticated user lacking the role AND >=1 request by an actor after its role was removed or it logged out. Distinct = hash of the case.".into();
+    ctx.rule = "multi-user request sequences (5-40 requests) against a real server process: four users (owner + three others) on one database (memory / mapped / file); grants and removals of read/write/admin roles, exec and exec_mut with read-only and mutating batches, a mutating batch sent to exec, audit, backup, restore, clear, optimize, convert, copy, rename, delete, remove, user list, adding a database under another user's name, logout (current / all sessions), login, change password, and admin endpoints called with user tokens; each request is issued by a generated actor presenting a valid, logged-out, garbage, missing or quoted token (the server strips surrounding quotes on purpose, so a quoted valid token counts as valid). Oracle: a permission model written from the documented table predicts allowed / rejected; rejected => 4xx and the observable server state (users, databases, roles per database, node count and element ids per database, read through admin endpoints) is unchanged; allowed => the roles reported by the server equal the model after a success; a permitted request that fails is counted, not judged (the property only says when an operation must NOT be performed), and ends the sequence. A user removing their own role is not in the documented table and is not decided. evaluations = requests. Non-trivial: >=1 rejected request by an authenticated user lacking the role AND >=1 request by an actor after its role was removed or it logged out. Distinct = hash of the case.".into();
     let cases = ctx.tier.pick(160, 2500);
     replay_saved::<PermCase, _>(ctx, "c24-requests", c24_case);
     run_campaign(ctx, CampaignCfg { name: "c24-requests", cases, max_shrink_iters: 200, max_restarts: 2 }, perm_case, c24_case);
